@@ -69,4 +69,5 @@ def bures_angle(rho_1: np.ndarray, rho_2: np.ndarray, decimals: int = 10) -> flo
     if not np.all(rho_1.shape == rho_2.shape):
         raise ValueError("InvalidDim: `rho_1` and `rho_2` must be matrices of the same size.")
     # Round fidelity to only 10 decimals to avoid error when :code:`rho_1 = rho_2`.
-    return np.real(np.arccos(np.sqrt(np.round(fidelity(rho_1, rho_2), decimals))))
+    # Numerical noise can push the fidelity of (nearly) identical states slightly above 1.
+    return np.real(np.arccos(np.sqrt(min(1.0, np.round(fidelity(rho_1, rho_2), decimals)))))
